@@ -15,6 +15,8 @@ def catalogue():
         'I2': [[dict(a=1, b='x')], []],
         'I3': [big],
         'I4': [big, [dict(a=1, c=Decimal('1.5')), dict(a=0, c=Decimal('2'))]],
+        'I5': [[dict(a=1, b='x', tags=['t1'], meta=dict(n=[1])), dict(a=2, b='y', tags=[], meta=dict(n=[]))],
+               [dict(a=1, c=Decimal('1.5'))]],
     }
 
 
@@ -41,6 +43,14 @@ def _row_inplace(row):
 
 def _row_new(row):
     return dict(row, a=(row['a'] or 0) + 10)
+
+
+def _nested_inplace(row):
+    # edits NESTED values in place (a shallow copy of the row still shares them)
+    if isinstance(row.get('tags'), list):
+        row['tags'].append('edited')
+    if isinstance(row.get('meta'), dict):
+        row['meta'].setdefault('n', []).append(9)
 
 
 def _rows_gen(rows):
@@ -114,6 +124,7 @@ def menu(tmp):
     m['update_stats'] = lambda: DF.update_stats(dict(k=1))
     m['row_inplace'] = lambda: _row_inplace
     m['row_new'] = lambda: _row_new
+    m['nested_inplace'] = lambda: _nested_inplace
     m['rows_gen'] = lambda: _rows_gen
     m['pkg_fn'] = lambda: _pkg_fn
     m['source_list'] = lambda: [dict(a=7, b='n'), dict(a=8, b='m')]
